@@ -697,3 +697,139 @@ Proof.
   rewrite (collect_spec _ _ _ _ (Ltxr lo hi) _ (tx_range_ok _ txops lo hi Hok)).
   rewrite (tx_range_view _ h txops lo hi I Hl Hok), Eh. reflexivity.
 Qed.
+
+(* ------------------------------------------------------------------------------------ *)
+(* Part F: prefix/suffix filters and their composition with bounds                         *)
+(* ------------------------------------------------------------------------------------ *)
+
+Lemma filter_filter : forall (A : Type) (p q : A -> bool) l,
+  filter q (filter p l) = filter (fun x => p x && q x) l.
+Proof.
+  intros A p q l. induction l as [|x r IH]; [reflexivity|]. cbn [filter].
+  destruct (p x); cbn [filter andb]; [destruct (q x); rewrite IH; reflexivity|exact IH].
+Qed.
+
+(* any lawful iterator whose content is a selection of the view of a history: its scan is the
+   scan of the specification for that selection *)
+Lemma scan_of_view : forall S (I : Iter S) ok content rest (L : Lawful I ok content rest) s h g limit,
+  ok s -> content s = filter (fun x => g (fst x)) (spec_view h) ->
+  scan I limit s =
+  (if 0 <? limit then firstn (N.to_nat limit) (spec_live h (filter g (spec_keys h)))
+   else spec_live h (filter g (spec_keys h))).
+Proof.
+  intros S I ok content rest L s h g limit H E.
+  rewrite (scan_spec _ _ _ _ L limit s H), take_lim_0, E, live_spec_view. reflexivity.
+Qed.
+
+(* one filter over a lawful iterator *)
+Lemma filtered_view : forall S (I : Iter S) ok content rest (L : Lawful I ok content rest) f s h g,
+  content s = filter (fun x => g (fst x)) (spec_view h) ->
+  f_content content f s = filter (fun x => g (fst x) && f (fst x)) (spec_view h).
+Proof.
+  intros S I ok content rest L f s h g E. unfold f_content, fk. rewrite E. apply filter_filter.
+Qed.
+
+(* service.Scan with a prefix and/or a suffix: filters over the (read-only) transaction's
+   full iterator; the engine's range iterator composes with them the same way *)
+Theorem eng_scan_filtered : forall c ops lo hi f limit, lost_log (run c ops) = false ->
+  scan (filtered_iter (eng_range_it lo hi) f) limit (eng_iter (run c ops)) =
+  spec_scan_limit (acked (init c) ops) lo hi f limit.
+Proof.
+  intros c ops lo hi f limit Hl. destruct (run_facts c ops Hl) as (h & I & Eh & Hok).
+  pose proof (filtered_lawful _ _ _ _ (Lrng lo hi) f) as Lf.
+  rewrite (scan_of_view _ _ _ _ _ Lf _ (acked (init c) ops) (fun k => in_range lo hi k && f k) limit
+             (eng_iter_ok _ Hok)).
+  - reflexivity.
+  - apply (filtered_view _ _ _ _ _ (Lrng lo hi) f _ _ (in_range lo hi)). unfold rng_content, b_content.
+    rewrite (eng_view _ h I Hl Hok), Eh. apply in_bounds_filter. apply spec_view_strict.
+Qed.
+
+Theorem tx_scan_prefix_suffix : forall c ops txops p q limit, lost_log (run c ops) = false ->
+  scan (filtered_iter (filtered_iter tx_it (prefix_filter p)) (suffix_filter q)) limit
+       (tx_full (run c ops) txops) =
+  spec_scan_limit (overlay (acked (init c) ops) txops) None None
+                  (fun k => has_prefix p k && has_suffix q k) limit.
+Proof.
+  intros c ops txops p q limit Hl. destruct (tx_run_facts c ops txops Hl) as (Hok & Ec).
+  pose proof (filtered_lawful _ _ _ _ Ltx (prefix_filter p)) as L1.
+  pose proof (filtered_lawful _ _ _ _ L1 (suffix_filter q)) as L2.
+  rewrite (scan_of_view _ _ _ _ _ L2 _ (overlay (acked (init c) ops) txops)
+             (fun k => (true && prefix_filter p k) && suffix_filter q k) limit Hok).
+  - unfold spec_scan_limit, spec_scan, prefix_filter, suffix_filter.
+    rewrite (filter_ext (fun k => true && has_prefix p k && has_suffix q k)
+                        (fun k => in_range None None k && (has_prefix p k && has_suffix q k))) by reflexivity.
+    reflexivity.
+  - apply (filtered_view _ _ _ _ _ L1 (suffix_filter q) _ _ (fun k => true && prefix_filter p k)).
+    apply (filtered_view _ _ _ _ _ Ltx (prefix_filter p) _ _ (fun _ => true)).
+    rewrite Ec. symmetry. apply filter_true.
+Qed.
+
+Theorem tx_scan_prefix : forall c ops txops p limit, lost_log (run c ops) = false ->
+  scan (filtered_iter tx_it (prefix_filter p)) limit (tx_full (run c ops) txops) =
+  spec_scan_limit (overlay (acked (init c) ops) txops) None None (has_prefix p) limit.
+Proof.
+  intros c ops txops p limit Hl. destruct (tx_run_facts c ops txops Hl) as (Hok & Ec).
+  pose proof (filtered_lawful _ _ _ _ Ltx (prefix_filter p)) as L1.
+  rewrite (scan_of_view _ _ _ _ _ L1 _ (overlay (acked (init c) ops) txops)
+             (fun k => true && prefix_filter p k) limit Hok).
+  - unfold spec_scan_limit, spec_scan, prefix_filter.
+    rewrite (filter_ext (fun k => true && has_prefix p k) (fun k => in_range None None k && has_prefix p k)) by reflexivity.
+    reflexivity.
+  - apply (filtered_view _ _ _ _ _ Ltx (prefix_filter p) _ _ (fun _ => true)). rewrite Ec. symmetry. apply filter_true.
+Qed.
+
+Theorem tx_scan_suffix : forall c ops txops q limit, lost_log (run c ops) = false ->
+  scan (filtered_iter tx_it (suffix_filter q)) limit (tx_full (run c ops) txops) =
+  spec_scan_limit (overlay (acked (init c) ops) txops) None None (has_suffix q) limit.
+Proof.
+  intros c ops txops q limit Hl. destruct (tx_run_facts c ops txops Hl) as (Hok & Ec).
+  pose proof (filtered_lawful _ _ _ _ Ltx (suffix_filter q)) as L1.
+  rewrite (scan_of_view _ _ _ _ _ L1 _ (overlay (acked (init c) ops) txops)
+             (fun k => true && suffix_filter q k) limit Hok).
+  - unfold spec_scan_limit, spec_scan, suffix_filter.
+    rewrite (filter_ext (fun k => true && has_suffix q k) (fun k => in_range None None k && has_suffix q k)) by reflexivity.
+    reflexivity.
+  - apply (filtered_view _ _ _ _ _ Ltx (suffix_filter q) _ _ (fun _ => true)). rewrite Ec. symmetry. apply filter_true.
+Qed.
+
+(* ------------------------------------------------------------------------------------ *)
+(* Part G: what the specification lists are                                                *)
+(* ------------------------------------------------------------------------------------ *)
+
+(* spec_scan is THE list with these three properties *)
+Theorem spec_scan_char : forall h lo hi sel,
+  StronglySorted (fun a b => blt (fst a) (fst b) = true) (spec_scan h lo hi sel) /\
+  forall k v, In (k, v) (spec_scan h lo hi sel) <->
+              spec_get h k = Some v /\ in_range lo hi k = true /\ sel k = true.
+Proof.
+  intros h lo hi sel. unfold spec_scan.
+  assert (Hk : kasc (filter (fun k => in_range lo hi k && sel k) (spec_keys h))).
+  { pose proof (spec_keys_kasc h) as K. induction K as [|x r Ks IH Kf]; cbn [filter]; [constructor|].
+    destruct (in_range lo hi x && sel x); [|exact IH]. constructor; [exact IH|].
+    rewrite Forall_forall in *. intros y Hy. apply filter_In in Hy. apply Kf. tauto. }
+  assert (Hin : forall k, In k (filter (fun k => in_range lo hi k && sel k) (spec_keys h)) <->
+                          In k (map fst (flat h)) /\ in_range lo hi k = true /\ sel k = true).
+  { intros k. rewrite filter_In, spec_keys_in, andb_true_iff. tauto. }
+  revert Hk Hin. generalize (filter (fun k => in_range lo hi k && sel k) (spec_keys h)) as keys.
+  intros keys Hk Hin. split.
+  - unfold spec_live. induction Hk as [|x r Ks IH Kf]; cbn [flat_map]; [constructor|].
+    assert (IH' : StronglySorted (fun a b => blt (fst a) (fst b) = true)
+                    (flat_map (fun k => match spec_get h k with Some v => [(k, v)] | None => [] end) r)).
+    { clear - Ks. induction Ks as [|y r' Ks' IH2 Kf']; cbn [flat_map]; [constructor|].
+      destruct (spec_get h y); cbn [app]; [|exact IH2]. constructor; [exact IH2|].
+      rewrite Forall_forall in *. intros [k v] Hkv. apply in_flat_map in Hkv. destruct Hkv as (k' & Hk' & Hv).
+      destruct (spec_get h k'); [|destruct Hv]. destruct Hv as [E|[]]. injection E as <- <-. cbn [fst].
+      apply Kf'. exact Hk'. }
+    destruct (spec_get h x); cbn [app]; [|exact IH']. constructor; [exact IH'|].
+    rewrite Forall_forall in *. intros [k v] Hkv. apply in_flat_map in Hkv. destruct Hkv as (k' & Hk' & Hv).
+    destruct (spec_get h k'); [|destruct Hv]. destruct Hv as [E|[]]. injection E as <- <-. cbn [fst].
+    apply Kf. exact Hk'.
+  - intros k v. unfold spec_live. rewrite in_flat_map. split.
+    + intros (k' & Hk' & Hv). destruct (spec_get h k') as [w|] eqn:G; [|destruct Hv].
+      destruct Hv as [E|[]]. injection E as <- <-. apply Hin in Hk'. tauto.
+    + intros (G & R & Sl). exists k. split.
+      * apply Hin. split; [|tauto]. unfold spec_get in G.
+        destruct (in_dec (list_eq_dec N.eq_dec) k (map fst (flat h))) as [Hi|Hn]; [exact Hi|].
+        apply last_effect_none_iff in Hn. unfold latest in G. rewrite Hn in G. discriminate.
+      * rewrite G. left. reflexivity.
+Qed.
